@@ -13,6 +13,7 @@ import PV.Driver.RWLock
 import PV.Driver.UThread
 import PV.Driver.Socket
 import PV.Driver.Res
+import PV.Driver.IPC
 def main (args : List String) : IO UInt32 := do
   match args with
   | ["ht"] => PV.Driver.HT.run; return 0
@@ -31,4 +32,5 @@ def main (args : List String) : IO UInt32 := do
   | ["uthread"] => PV.Driver.UThread.run; return 0
   | ["socket"] => PV.Driver.Socket.run; return 0
   | ["res"] => PV.Driver.ResD.run; return 0
+  | ["ipc"] => PV.Driver.IPC.run; return 0
   | _ => IO.eprintln "usage: pvdriver <family>  (ops on stdin)"; return 2
